@@ -220,8 +220,20 @@ def structured(ctx, ht):
         prods = [x for x in sides if isinstance(x, ast.BinOp) and isinstance(x.op, ast.Mult) and
                  {U(x.left), U(x.right)} == {'self.n_ilines', 'self.n_xlines'}]
         return len(tcs) == 1 and len(prods) == 1
-    good = [a for a in st if is_grid_test(a.value)]
-    others = [a for a in st if not is_grid_test(a.value) and not (isinstance(a.value, ast.Constant) and a.value.value is False)]
+    # `self.is_3d and <grid test>`: conjuncts that hold for every 3D file (the mode flag) do not change the value there,
+    # and make it False on a 2D file
+    from ..facts import truth as f_truth
+    facts3, al, flag = RF.mode_facts(P, '3d')
+    fm3 = RF.factmap(P, init, '3d')
+
+    def strip_mode(e):
+        if isinstance(e, ast.BoolOp) and isinstance(e.op, ast.And):
+            rest = [v for v in e.values if f_truth(v, frozenset(facts3), fm3.cc) is not True]
+            if len(rest) == 1:
+                return rest[0]
+        return e
+    good = [a for a in st if is_grid_test(strip_mode(a.value))]
+    others = [a for a in st if not is_grid_test(strip_mode(a.value)) and not (isinstance(a.value, ast.Constant) and a.value.value is False)]
     if good and not others:
         ctx.ok('C05.5', init, good[0], 'structured = tracecount == n_il*n_xl')
     else:
